@@ -778,6 +778,20 @@ func ruleOperatorBinding(c *eng.Ctx) {
 			if strings.HasSuffix(n, ").showText") {
 				show = append(show, call)
 			}
+			// a local closure that shows the operand (showOperand := func(i int) { ... e.showText(...) })
+			var lit *ssa.Function
+			if mc, ok := call.Common().Value.(*ssa.MakeClosure); ok {
+				lit, _ = mc.Fn.(*ssa.Function)
+			} else if f, ok := call.Common().Value.(*ssa.Function); ok && f.Parent() == fn {
+				lit = f
+			}
+			if lit != nil {
+				for _, inner := range eng.Calls(lit, false, func(n string, _ ssa.CallInstruction) bool { return strings.HasSuffix(n, ").showText") }) {
+					_ = inner
+					show = append(show, call)
+					break
+				}
+			}
 		}
 		key := fmt.Sprintf("text.(*Extractor).processOperation#case %q order", op)
 		if len(next) == 0 || len(show) == 0 {
@@ -800,6 +814,35 @@ func ruleOperatorBinding(c *eng.Ctx) {
 				wantIdx = 2
 			}
 			idx, _ := operandIndices(s.Common().Args[len(s.Common().Args)-1])
+			if !strings.HasSuffix(eng.CalleeName(s), ").showText") {
+				// the closure showOperand(i): the constant handed over is the operand's index, and the closure indexes
+				// the operands with its parameter
+				idx = map[int]bool{}
+				var lit *ssa.Function
+				if mc, ok := s.Common().Value.(*ssa.MakeClosure); ok {
+					lit, _ = mc.Fn.(*ssa.Function)
+				} else if f, ok := s.Common().Value.(*ssa.Function); ok {
+					lit = f
+				}
+				if k, isC := eng.ConstInt(s.Common().Args[len(s.Common().Args)-1]); isC && lit != nil && len(lit.Params) == 1 {
+					byParam := false
+					eng.Instrs(lit, false, func(in ssa.Instruction) {
+						switch a := in.(type) {
+						case *ssa.IndexAddr:
+							if a.Index == ssa.Value(lit.Params[0]) {
+								byParam = true
+							}
+						case *ssa.Index:
+							if a.Index == ssa.Value(lit.Params[0]) {
+								byParam = true
+							}
+						}
+					})
+					if byParam {
+						idx[int(k)] = true
+					}
+				}
+			}
 			if len(idx) != 1 || !idx[wantIdx] {
 				c.Viol(R, key+"#string", s.Pos(), fmt.Sprintf("shown string is not operand %d", wantIdx))
 			} else {
